@@ -58,17 +58,38 @@ def parse_enum(text):
     return names
 
 
-def numeric_parser(text):
-    """which function HttpHdrCc::parse hands the numeric arguments to"""
-    m = re.search(r"HttpHdrCc::parse\(.*?\n\}\n", text, re.S)
-    body = m.group(0) if m else text
-    return "atoi" if "httpHeaderParseInt(" in body else "strict"
+def numeric_parser(tools_text):
+    """how httpHeaderParseInt (src/HttpHeaderTools.cc) converts: 'strtol-range' (strtol + ERANGE + INT_MIN/INT_MAX check, what the
+    model transcribes), 'atoi' (the earlier code) or 'other'"""
+    m = re.search(r"\nhttpHeaderParseInt\(.*?\n\}\n", tools_text, re.S)
+    body = m.group(0) if m else ""
+    if "strtol(" in body and "ERANGE" in body and "INT_MAX" in body and "INT_MIN" in body:
+        return "strtol-range"
+    if "atoi(" in body:
+        return "atoi"
+    return "other"
+
+
+def lead_delims(strlist_text):
+    """delim[2] of strListGetItem (what strspn skips before an item) with `del` = ','; [] when the table is not found"""
+    m = re.search(r"static\s+char\s+delim\[3\]\[\d+\]\s*=\s*\{(.*?)\};", strlist_text, re.S)
+    if not m:
+        return []
+    lits = re.findall(r'"((?:[^"\\]|\\.)*)"', m.group(1))
+    if len(lits) < 3:
+        return []
+    raw = bytearray(bytes(lits[2], "latin-1").decode("unicode_escape").encode("latin-1"))
+    if len(raw) > 1:
+        raw[1] = ord(",")      # delim[2][1] = del
+    return sorted(set(raw))
 
 
 def generate(stage):
     from props import C29
     cc = stage.read("src/HttpHdrCc.cc")
     hh = stage.read("src/HttpHdrCc.h")
+    tools = stage.read("src/HttpHeaderTools.cc")
+    leads = lead_delims(stage.read("src/StrList.cc"))
     rows = parse_attrs(cc)
     enum = parse_enum(hh)
     exe = C29.build_exe(stage)
@@ -131,8 +152,11 @@ def LONG_BITS : Nat := %d
 /-- octets for which `xisspace` / `xisdigit` answer true in the running code (C locale) -/
 def spaceChars : List UInt8 := [%s]
 def digitChars : List UInt8 := [%s]
-/-- `true`: `HttpHdrCc::parse` hands numeric arguments to `httpHeaderParseInt` (atoi) -/
-def numericViaAtoi : Bool := %s
+/-- `delim[2]` of `strListGetItem` with `del = ','`: the octets skipped in front of an item -/
+def leadDelims : List UInt8 := [%s]
+/-- `true`: `httpHeaderParseInt` converts with `strtol` and rejects `ERANGE` and values outside `INT_MIN..INT_MAX`
+(found in the source text: %s) -/
+def parseIntRangeChecked : Bool := %s
 
 end SquidModel.Gen.CcDirectives
 """ % (",\n".join(lines),
@@ -144,6 +168,7 @@ end SquidModel.Gen.CcDirectives
        consts.get("INT_BITS", 0), consts.get("LONG_BITS", 0),
        ", ".join(str(c) for c in classes.get("isspace", [])),
        ", ".join(str(c) for c in classes.get("isdigit", [])),
-       "true" if numeric_parser(cc) == "atoi" else "false")
+       ", ".join(str(c) for c in leads),
+       numeric_parser(tools), "true" if numeric_parser(tools) == "strtol-range" else "false")
     return "SquidModel/Gen/CcDirectives.lean", text, {"rows": len(rows), "enumerators": len(enum), "mismatches": mismatches,
-                                                      "numeric_parser": numeric_parser(cc)}
+                                                      "numeric_parser": numeric_parser(tools), "lead_delims": leads}
